@@ -41,7 +41,7 @@ func replayMode(u *UnitSpec) string {
 }
 
 // nativeRun compiles the harness against the real packages with `go test -overlay` and runs the cases.
-func nativeRun(res *unitResult, cases []vCase, keepDir string) (map[string]*nativeOut, string, error) {
+func nativeRun(res *unitResult, cases []vCase, keepDir string, timeoutS int) (map[string]*nativeOut, string, error) {
 	u := res.spec
 	tmp := keepDir
 	if tmp == "" {
@@ -98,7 +98,7 @@ func nativeRun(res *unitResult, cases []vCase, keepDir string) (map[string]*nati
 	if keepDir != "" {
 		os.WriteFile(filepath.Join(tmp, "replay.sh"), []byte("#!/bin/sh\n# re-runs the stored counterexample(s) against the real build; prints the native trace\n"+cmdline+" -v\n"), 0o755)
 	}
-	cmd := exec.Command("go", "test", "-v", "-vet=off", "-count=1", "-timeout", "300s", "-run", "^TestVerifReplay$", "-overlay", ovPath, res.pattern)
+	cmd := exec.Command("go", "test", "-v", "-vet=off", "-count=1", "-timeout", fmt.Sprintf("%ds", timeoutS), "-run", "^TestVerifReplay$", "-overlay", ovPath, res.pattern)
 	cmd.Dir = res.loadDir
 	cmd.Env = append(os.Environ(), "VERIF_CASES="+casesPath, "GOFLAGS=-mod=mod", "GOPROXY=off", "GOSUMDB=off", "GOTOOLCHAIN=local")
 	var out bytes.Buffer
@@ -106,6 +106,9 @@ func nativeRun(res *unitResult, cases []vCase, keepDir string) (map[string]*nati
 	cmd.Stderr = &out
 	runErr := cmd.Run()
 	outs := map[string]*nativeOut{}
+	if strings.Contains(out.String(), "panic: test timed out") {
+		outs["$timeout"] = &nativeOut{found: true, end: "timeout"}
+	}
 	var cur *nativeOut
 	for _, l := range strings.Split(out.String(), "\n") {
 		switch {
@@ -179,7 +182,7 @@ func (r *checkRun) nativeValidate(res *unitResult) {
 	if len(cases) == 0 {
 		return
 	}
-	outs, _, err := nativeRun(res, cases, "")
+	outs, _, err := nativeRun(res, cases, "", 300)
 	if err != nil {
 		res.natives.Notes = append(res.natives.Notes, err.Error())
 		return
@@ -233,13 +236,29 @@ func (r *checkRun) confirm(res *unitResult, v *sx.Violation, n int) *confirmedVi
 	rep := sx.Explore(res.prog, opt)
 	engineOK := false
 	for _, x := range rep.Violations {
-		if x.Kind == v.Kind && x.Label == v.Label {
+		if x.Kind == v.Kind && (x.Label == v.Label || v.Kind == "unwind") {
 			engineOK = true
 		}
 	}
 	if !engineOK {
 		cv.how = "engine"
 		cv.note = fmt.Sprintf("concrete re-execution under the model did not reproduce the violation (paths=%d unsup=%v)", rep.Paths, rep.UnsupReasons)
+		return cv
+	}
+	if replayMode(res.spec) == "native" && v.Kind == "unwind" {
+		// a non-terminating run is confirmed natively by the real code still running after a generous time-out
+		cases := []vCase{{ID: "v", Entry: res.spec.Entry, Model: v.Model, Params: res.tier.Params}}
+		outs, cmdline, err := nativeRun(res, cases, dir, 20)
+		if err == nil && outs["$timeout"] != nil && (outs["v"] == nil || !outs["v"].found) {
+			cv.confirmed = true
+			cv.how = "native (the real build is still inside the loop after 20 s on this input): " + cmdline
+			return cv
+		}
+		cv.how = "native"
+		cv.note = "native run terminated although the engine found a non-terminating path"
+		if err != nil {
+			cv.note = err.Error()
+		}
 		return cv
 	}
 	if replayMode(res.spec) != "native" || (v.Kind != "assert" && v.Kind != "panic") {
@@ -250,7 +269,7 @@ func (r *checkRun) confirm(res *unitResult, v *sx.Violation, n int) *confirmedVi
 	}
 	// step 2: native
 	cases := []vCase{{ID: "v", Entry: res.spec.Entry, Model: v.Model, Params: res.tier.Params}}
-	outs, cmdline, err := nativeRun(res, cases, dir)
+	outs, cmdline, err := nativeRun(res, cases, dir, 300)
 	if err != nil {
 		cv.how = "native"
 		cv.note = "native replay infrastructure failed: " + err.Error()
